@@ -24,6 +24,16 @@ claimed = {
          "Harness-written logs (all entry kinds, multi-target annotations, gittuf namespaces, legacy prefix) are queried through every exported reader with seeded option combinations and bounds while the log grows (warm cache from shorter logs) and after one single-point corruption (extra parent, number gap/duplicate, garbage commit); results must equal a plain scan, and any answer whose scan crosses the corruption must be an error.",
          "Option semantics as documented in pkg/rsl/options.go; documented-open combinations are counted as unspecified, not compared.",
          "DESIGN.md §6 C04"),
+ "C01": ("exploration",
+         "deterministic simulation: seeded multi-actor histories (order of pushes vs policy changes vs approvals vs revocations decided by the seed) judged by a reference model fed ground truth",
+         "Generated policies (thresholds 1-3, up to two delegation levels, protected/unprotected refs) and histories in which authorised, de-authorised, never-authorised, unknown-key and unsigned actors push, approve, revoke, edit policy and record propagation entries in seeded order; every verification (full, latest-only, from-entry; mid-history and at the end) is compared with the model's three-valued expectation (must accept with the right tip / must reject / unspecified).",
+         "SimStore; in-process envelope signer verified by gittuf's real verifier; the model is my reading of the statement (Appendix A); principals share no keys; tags and file rules are not generated here.",
+         "DESIGN.md §6 C01"),
+ "C07": ("exploration",
+         "deterministic simulation: flag-pattern histories (valid/violating x revoked/not x tree) with seeded annotation placement and interleaved policy switches; bounded sweep of all patterns up to length 4 in the thorough tier",
+         "Every entry of a protected reference is independently valid or violating, revoked or not (annotations right after, anywhere later, multi-target, by any actor) and carries one of three trees; other-ref pushes, policy switches and attestation entries are interleaved. The recovery rule as worded is evaluated over ground truth: any history whose violation is not revoked and repaired as required must be rejected.",
+         "Only the only-if direction is a verdict; first-entry violations and unauthorised fix entries are unspecified here.",
+         "DESIGN.md §6 C07"),
 }
 
 not_applicable = {
